@@ -223,12 +223,13 @@ Proof.
     + destruct (render pol c (rw_text r)) as [t|e2] eqn:E2.
       * destruct (rw_kind r); try discriminate.
         unfold eval_iter. destruct (rw_iter r) as [l|x]; [discriminate|].
-        destruct (cget c x) as [[sv|lv]|]; try discriminate. intros H; inversion H; reflexivity.
+        destruct (cget c x) as [[sv|lv|nv]|]; try discriminate. intros H; inversion H; reflexivity.
       * intros H; inversion H; subst. exact (render_err _ _ _ E2).
     + intros H. assert (e = e1) by (destruct (render pol c (rw_text r)); inversion H; reflexivity). subst. exact (render_err _ _ _ E1).
   - discriminate.
-  - intros H; inversion H; subst. unfold eval_inc in Ei. destruct (rw_inc r) as [| |x]; try discriminate.
-    destruct (cget c x); [discriminate|]. destruct pol; inversion Ei; reflexivity.
+  - intros H; inversion H; subst. unfold eval_inc in Ei. destruct (rw_inc r) as [| |x|x pos w]; try discriminate.
+    + destruct (cget c x); [discriminate|]. destruct pol; inversion Ei; reflexivity.
+    + destruct (cget c x); [discriminate|]. destruct pol; inversion Ei; reflexivity.
 Qed.
 
 Lemma next_row_err s o e : next_row pol rows s o = RErr e -> e = Undefined.
@@ -1135,32 +1136,37 @@ Qed.
 (* ------------------------------------------------------------------ 7. context extension = textual substitution *)
 Section Sub.
 Variable pol : undefined_policy.
-Variables x v : str.
+Variable x : str.
+Variable v : value.
 
 Lemma str_eqb_false_neq a b : str_eqb a b = false -> a <> b.
 Proof. intros H ->. rewrite str_eqb_refl in H. discriminate. Qed.
 
 Lemma render_sub c1 c2 t :
-  agree_except x c1 c2 -> cget c1 x = Some (VS v) ->
+  agree_except x c1 c2 -> cget c1 x = Some v ->
   render pol c1 t = render pol c2 (map (sub_seg x v) t).
 Proof.
   intros Ha Hx. induction t as [|[s|y] t IH]; cbn [map sub_seg render]; [reflexivity|rewrite IH; reflexivity|].
   destruct (str_eqb y x) eqn:E.
-  - apply str_eqb_eq in E. subst y. rewrite Hx. cbn [render value_str]. rewrite IH. reflexivity.
+  - apply str_eqb_eq in E. subst y. rewrite Hx. cbn [render]. rewrite IH. reflexivity.
   - cbn [render]. rewrite (Ha y (str_eqb_false_neq _ _ E)), IH. reflexivity.
 Qed.
 
 Lemma instantiate_sub c1 c2 r :
-  agree_except x c1 c2 -> cget c1 x = Some (VS v) ->
+  agree_except x c1 c2 -> cget c1 x = Some v ->
   instantiate pol c1 r = instantiate pol c2 (sub_row x v r).
 Proof.
   intros Ha Hx. unfold instantiate, sub_row. cbn [rw_inc rw_id rw_text rw_kind rw_vars rw_iter].
   assert (Hi : eval_inc pol c1 (rw_inc r) = eval_inc pol c2 (sub_inc x v (rw_inc r))).
-  { destruct (rw_inc r) as [| |y]; cbn [sub_inc eval_inc]; try reflexivity.
-    destruct (str_eqb y x) eqn:E.
-    - apply str_eqb_eq in E. subst y. rewrite Hx. cbn [value_str].
-      destruct (str_eqb (lower (strip v)) s_false); reflexivity.
-    - cbn [eval_inc]. rewrite (Ha y (str_eqb_false_neq _ _ E)). reflexivity. }
+  { destruct (rw_inc r) as [| |y|y pos w]; cbn [sub_inc eval_inc]; try reflexivity.
+    - destruct (str_eqb y x) eqn:E.
+      + apply str_eqb_eq in E. subst y. rewrite Hx.
+        destruct (str_eqb (lower (strip (value_str v))) s_false); reflexivity.
+      + cbn [eval_inc]. rewrite (Ha y (str_eqb_false_neq _ _ E)). reflexivity.
+    - destruct (str_eqb y x) eqn:E.
+      + apply str_eqb_eq in E. subst y. rewrite Hx.
+        destruct (if pos then value_is_word v w else negb (value_is_word v w)); reflexivity.
+      + cbn [eval_inc]. rewrite (Ha y (str_eqb_false_neq _ _ E)). reflexivity. }
   rewrite Hi. destruct (eval_inc pol c2 (sub_inc x v (rw_inc r))) as [[|]|]; try reflexivity.
   rewrite <- (render_sub c1 c2 (rw_id r) Ha Hx), <- (render_sub c1 c2 (rw_text r) Ha Hx).
   destruct (render pol c1 (rw_id r)); [|reflexivity]. destruct (render pol c1 (rw_text r)); [|reflexivity].
@@ -1168,7 +1174,7 @@ Proof.
   assert (Ht : eval_iter pol c1 (rw_iter r) = eval_iter pol c2 (sub_iter x v (rw_iter r))).
   { destruct (rw_iter r) as [l|y]; cbn [sub_iter eval_iter]; [reflexivity|].
     destruct (str_eqb y x) eqn:E.
-    - apply str_eqb_eq in E. subst y. rewrite Hx. reflexivity.
+    - apply str_eqb_eq in E. subst y. rewrite Hx. destruct v; reflexivity.
     - cbn [eval_iter]. rewrite (Ha y (str_eqb_false_neq _ _ E)). reflexivity. }
   rewrite Ht. reflexivity.
 Qed.
@@ -1195,12 +1201,12 @@ Proof.
   destruct (str_eqb i z) eqn:E.
   - apply str_eqb_eq in E. subst z. rewrite !cget_cset_same. reflexivity.
   - pose proof (str_eqb_false_neq _ _ E) as Hn.
-    rewrite (cget_cset_other _ i z (VS (enc_dec n)) Hn), (cget_cset_other _ i z (VS (enc_dec n)) Hn). exact H1.
+    rewrite (cget_cset_other _ i z (VI n) Hn), (cget_cset_other _ i z (VI n) Hn). exact H1.
 Qed.
 
 Lemma bound_bind c y idy e n :
-  cget c x = Some (VS v) -> y <> x -> (forall i, idy = Some i -> i <> x) ->
-  cget (bind_loop c y idy e n) x = Some (VS v).
+  cget c x = Some v -> y <> x -> (forall i, idy = Some i -> i <> x) ->
+  cget (bind_loop c y idy e n) x = Some v.
 Proof.
   intros Hx Hy Hi. unfold bind_loop. destruct idy as [i|].
   - rewrite cget_cset_other by (exact (Hi i eq_refl)). rewrite cget_cset_other by exact Hy. exact Hx.
@@ -1210,8 +1216,8 @@ Qed.
 Notation SUB := (map (sub_row x v)).
 
 Lemma ds_iter_sub (b1 b2 : ctx -> res (list raw * list raw)) c1 c2 y idy :
-  agree_except x c1 c2 -> cget c1 x = Some (VS v) -> y <> x -> (forall i, idy = Some i -> i <> x) ->
-  (forall d1 d2, agree_except x d1 d2 -> cget d1 x = Some (VS v) ->
+  agree_except x c1 c2 -> cget c1 x = Some v -> y <> x -> (forall i, idy = Some i -> i <> x) ->
+  (forall d1 d2, agree_except x d1 d2 -> cget d1 x = Some v ->
      b2 d2 = map_rem SUB (b1 d1) /\ (forall o rem, b1 d1 = ROk (o, rem) -> Forall (no_rebind x) rem)) ->
   forall elems n rem0,
     ds_iter b2 c2 y idy elems n (SUB rem0) = map_rem SUB (ds_iter b1 c1 y idy elems n rem0)
@@ -1228,7 +1234,7 @@ Proof.
 Qed.
 
 Theorem ds_sub : forall f rest c1 c2 bt omit,
-  agree_except x c1 c2 -> cget c1 x = Some (VS v) -> Forall (no_rebind x) rest ->
+  agree_except x c1 c2 -> cget c1 x = Some v -> Forall (no_rebind x) rest ->
   ds pol f (SUB rest) c2 bt omit = map_rem SUB (ds pol f rest c1 bt omit)
   /\ (forall o rem, ds pol f rest c1 bt omit = ROk (o, rem) -> Forall (no_rebind x) rem).
 Proof.
@@ -1332,12 +1338,12 @@ Theorem ds_body_substituted pol f rest c x idx e n bt omit b rem :
   ds pol f (subst_loop x idx e n rest) c bt omit = ROk (b, subst_loop x idx e n rem).
 Proof.
   intros Hx Hi H. unfold subst_loop, bind_loop in *. destruct idx as [i|].
-  - destruct (ds_sub pol i (enc_dec n) f rest (cset (cset c x (VS e)) i (VS (enc_dec n))) (cset c x (VS e)) bt omit
+  - destruct (ds_sub pol i (VI n) f rest (cset (cset c x (VS e)) i (VI n)) (cset c x (VS e)) bt omit
                 (agree_cset _ _ _) (cget_cset_same _ _ _) (Hi i eq_refl)) as [H1 _].
     rewrite H in H1. cbn [map_rem] in H1.
-    destruct (ds_sub pol x e f (map (sub_row i (enc_dec n)) rest) (cset c x (VS e)) c bt omit
+    destruct (ds_sub pol x (VS e) f (map (sub_row i (VI n)) rest) (cset c x (VS e)) c bt omit
                 (agree_cset _ _ _) (cget_cset_same _ _ _) (no_rebind_sub _ _ _ _ Hx)) as [H2 _].
     rewrite H1 in H2. exact H2.
-  - destruct (ds_sub pol x e f rest (cset c x (VS e)) c bt omit (agree_cset _ _ _) (cget_cset_same _ _ _) Hx) as [H2 _].
+  - destruct (ds_sub pol x (VS e) f rest (cset c x (VS e)) c bt omit (agree_cset _ _ _) (cget_cset_same _ _ _) Hx) as [H2 _].
     rewrite H in H2. exact H2.
 Qed.
